@@ -457,6 +457,15 @@ def run(ctx, out, tier):
         from rules.C12 import err_blocks
         acfg = cfg_of(av)
         nxt = [bi for bi, t in av.calls() if callee_matches(t, r"Iterator>?::next$") and "extensions" in render(ctx.expr(av).operand(t["args"][0]), 600)]
+        # ... each occurrence as given: the loop that drives the grammar test is not an iteration over a map keyed
+        # by extension (a key given twice keeps one value there)
+        tests = [bi for bi, t in av.calls() if callee_matches(t, r"HashSet::<.*>::contains$|HashSet<.*>::contains$")
+                 and "supported_extensions" in render(ctx.expr(av).operand(t["args"][0]), 300)]
+        for bi, t in av.calls():
+            if callee_matches(t, r"Iterator>?::next$") and re.search(r"\b(hash_map|btree_map)::", (t.get("arg_tys") or [""])[0]) \
+                    and any(acfg.dominates(bi, tb) and acfg.can_reach(tb, bi) for tb in tests):
+                out.viol("C16.validate", "C16.validate|collapsed", ctx.where(av, t["span"]),
+                         "the -E mappings are validated by walking a map keyed by extension: a key given twice keeps only one value there, so `-E k=bogus -E k=html` is accepted although one of the mappings names an unsupported grammar - every -E occurrence as given must be examined")
         if nxt:
             r = acfg.reach(0, avoid=set(nxt) | err_blocks(ctx, av))
             if any(x in acfg.exits for x in r):
